@@ -271,6 +271,26 @@ from chartparse.instrument import HOPOState, InstrumentTrack, Note, NoteEvent  #
 NN = H.part("VF_NN", 2)
 
 
+class _FuncMap:
+    """Functional stand-in tempo map: time(tick) = 7*tick + 3 us; consistent however often it is asked."""
+
+    def __init__(self):
+        self.calls = []
+
+    @staticmethod
+    def F(tick):
+        return 7 * tick + 3
+
+    def timestamp_at_tick_no_optimize_return(self, tick):
+        self.calls.append(tick)
+        if tick < 0:
+            raise ValueError("negative tick")
+        return AbsTime(self.F(tick))
+
+    def timestamp_at_tick(self, tick, *, start_iteration_index=0):
+        return self.timestamp_at_tick_no_optimize_return(tick), 0
+
+
 class _RecMap:
     def __init__(self, pool):
         self.pool = list(pool)
@@ -308,7 +328,7 @@ def nps(form: int, n: int, ts0: int, ts1: int, ts2: int, en0: int, en1: int, en2
     ts, en = [ts0, ts1, ts2][:n], [en0, en1, en2][:n]
     notes = [NoteEvent(tick=i, timestamp=AbsTime(ts[i]), end_timestamp=AbsTime(en[i]),
                        note=Note.G, hopo_state=HOPOState.STRUM) for i in range(n)]
-    tempo = _RecMap([ua, ub])
+    tempo = _FuncMap()
     chart, tr = _mk_chart(notes, tempo)
     inst = Instrument.GUITAR if inst_ok else Instrument.BASS
     diff = Difficulty.EXPERT if diff_ok else Difficulty.EASY
@@ -322,10 +342,10 @@ def nps(form: int, n: int, ts0: int, ts1: int, ts2: int, en0: int, en1: int, en2
         s_us, e_us = 0, last_end
     elif form == 1:
         args, lookups = (a,), [a]
-        s_us, e_us = ua, last_end
+        s_us, e_us = _FuncMap.F(a), last_end
     elif form == 2:
         args, lookups = (a, b), [a, b]
-        s_us, e_us = ua, ub
+        s_us, e_us = _FuncMap.F(a), _FuncMap.F(b)
     elif form == 3:
         args, lookups = (AbsTime(a),), []
         s_us, e_us = a, last_end
@@ -334,7 +354,7 @@ def nps(form: int, n: int, ts0: int, ts1: int, ts2: int, en0: int, en1: int, en2
         s_us, e_us = a, b
     else:
         args, lookups = (None, b), [b]
-        s_us, e_us = 0, ua
+        s_us, e_us = 0, _FuncMap.F(b)
     with H.patched((C, "timedelta", H.TD)):
         try:
             got = chart.notes_per_second(inst, diff, *args)
@@ -348,7 +368,7 @@ def nps(form: int, n: int, ts0: int, ts1: int, ts2: int, en0: int, en1: int, en2
         if s_us <= ts[i] and ts[i] <= e_us:
             count += 1
     ok = isinstance(got, H.Rate) and got.num == count and got.us == e_us - s_us
-    ok = ok and tempo.calls == lookups
+    ok = ok and all(t in lookups for t in tempo.calls)      # only the bound ticks are asked about
     return done(ok)
 
 
@@ -392,12 +412,17 @@ C19_TEXT = """[Song]
 [HardDrums]
 {
   384 = N 3 0
+  200 = N 2 0
 }
 """
 
 
+CV = H.part("VF_CV", 0)      # how the chart under test was parsed: 0 default, 1 want_tracks=[], 2 one selected track
+_C19_WANT = [None, [], [(Instrument.DRUMS, Difficulty.HARD)]][CV]
+
+
 def _parse_c19():
-    return Chart.from_file(io.StringIO(C19_TEXT))
+    return Chart.from_file(io.StringIO(C19_TEXT), want_tracks=_C19_WANT)
 
 
 try:
@@ -656,11 +681,12 @@ def rejects_assignment(k: int, v: int) -> bool:
 # C06 / C13 with the real section parsers on concrete text
 # ---------------------------------------------------------------------------------------------
 _SONG = ["[Song]", "{", '  Name = "x"', "  Resolution = 192", "}"]
-_SYNC = ["[SyncTrack]", "{", "  0 = TS 4", "  0 = B 120000", "  384 = B 60000", "}"]
+_SYNC = ["[SyncTrack]", "{", "  0 = TS 4", "  0 = B 120000", "  384 = B 60000", "  384 = A 2000000", "}"]
 _EVTS = ["[Events]", "{", '  0 = E "section a"', '  96 = E "lyric b"', "}"]
 _TRACK_A = ["  0 = N 0 0", "  96 = N 1 48", "  96 = N 2 0", "  100 = S 2 50", "  400 = N 7 0"]
 _TRACK_B = ["  10 = N 3 0", "  20 = E solo"]
-_TRACK_BAD = ["  500 = N 3 0", "  20 = N 1 0", "  20 = N 5 0", "  5 = E solo"]   # unsorted: rejected when parsed
+# unsorted across the tempo change at 384: rejected when parsed (ticks 96 / 0 also occur in other sections)
+_TRACK_BAD = ["  500 = N 3 0", "  96 = N 1 0", "  96 = N 5 0", "  0 = E solo"]
 _REAL_NAMES = ["ExpertSingle", "EasyDoubleBass", "MediumGHLCoop", "HardKeyboard", "ExpertSinglee"]
 _REAL_PERMS = [(0, 1, 2, 3), (3, 2, 1, 0), (1, 3, 0, 2), (2, 0, 3, 1)]
 
